@@ -335,6 +335,7 @@ type MsgSpec struct {
 	Extra   []dhcpmsg.DHCPOpt
 	Pads    int
 	Trailer []byte
+	Dup     []uint8 // option codes that are sent a second time, identically, at the end of the option list
 }
 
 func (m MsgSpec) Frame() []byte {
@@ -352,6 +353,14 @@ func (m MsgSpec) Frame() []byte {
 		opts = append(opts, dhcpmsg.OptionServerIdentifier(m.SrvID))
 	}
 	opts = append(opts, m.Extra...)
+	for _, code := range m.Dup {
+		for _, o := range opts {
+			if o.Option == code {
+				opts = append(opts, dhcpmsg.DHCPOpt{Option: o.Option, Data: append([]byte(nil), o.Data...)})
+				break
+			}
+		}
+	}
 	if len(opts) == 0 {
 		opts = append(opts, dhcpmsg.DHCPOpt{Option: 77, Data: []byte{1}})
 	}
